@@ -1359,6 +1359,12 @@ def main(tier: str, seed: int, args) -> int:
                                                 "histories_in_space": end - first} for a_, first, end in l1x_plan(tier)],
                                      "histories": c.get("l1x_histories", 0), "total_in_space": sum(e - f for _, f, e in l1x_plan(tier)),
                                      "complete": c.get("l1x_histories", 0) == sum(e - f for _, f, e in l1x_plan(tier))},
+        "l1f_fault_sweep_under_mismatching_base_hash": {
+            "what": "one call (6 call kinds) carrying a base_hash that does not match (stale / future / digest of the empty text; 'current' as control), "
+                    "after nothing / an external rewrite / an undecodable rewrite; EVERY operation the call performs fails in turn with every errno "
+                    "its class admits, one-shot, sticky for the whole process, and sticky for that operation on that path (e.g. every read of the target)",
+            "cases": len(l1f_cases()), "reference_runs": c.get("l1f_reference_runs", 0), "faulted_runs": c.get("l1f_faulted_runs", 0),
+            "fault_at_operation_class": dict(stats.groups.get("l1f_fault_at_class", {}))},
         "l2x_exhaustive_two_writer_interleavings": {
             "switch_points": "before each open-for-read of the target, each flock operation and each replace onto the target",
             "writer_kinds": 9, "pairs": len(l2x_pairs()), "pairs_exhausted": c.get("l2x_pairs_exhausted", 0),
